@@ -12,7 +12,7 @@ import itertools, os, random
 from . import common as C, proggen as P
 
 PROP = "C07"
-MODULES = ["RuschmProofs.C07"]
+MODULES = ["RuschmProofs.C07", "RuschmProofs.BuiltinTable"]
 ALPHA20 = list("()'.#\";|\\+-1ae/t,` ") + ["\n"]
 SANITY = "((lambda (x) x) 42)"
 VOCAB = ["(", ")", "(", ")", "'", "#(", ".", "define", "lambda", "if", "set!", "quote", "let", "let*", "cond", "case", "else", "=>",
